@@ -29,6 +29,10 @@ PROFILE = _gen.profile(p_upgrade=0.95, p_sabotage=0.6, p_second_upgrade=0.6,
                        p_ws_fault=0.05)
 
 
+CONNECTION = ['keep-alive, Upgrade', 'Upgrade, keep-alive', 'upgrade',
+              'keep-alive,upgrade', 'UPGRADE', 'Keep-Alive , Upgrade']
+
+
 def gen(rng, tier, i):
     plan = _gen.gen_server_plan(rng, PROFILE)
     cfg = plan['config']
@@ -54,9 +58,15 @@ def gen(rng, tier, i):
                     [['send', big], ['delay', 4]],
                     [['send', '2probe'], ['wait_frame'], ['send', big],
                      ['delay', 4]]])
-            if rng.random() < 0.08:
+            if rng.random() < 0.12:
                 u['query'] = 'transport=polling&EIO=4&c={c}&sid={sid}'
                 u.pop('steps', None)
+            if rng.random() < 0.3:
+                # the same upgrade request as browsers and proxies spell it
+                u['headers'] = [['Connection', rng.choice(CONNECTION)]]
+                if rng.random() < 0.3:
+                    u['headers'].append(['Upgrade', rng.choice(
+                        ['WebSocket', 'WEBSOCKET', 'websocket'])])
     return plan
 
 
@@ -117,6 +127,28 @@ def gen_rival_handshake(rng, tier, i):
                        ['delay', rng.choice([0, 1, 2, 4, 8, 16])],
                        ['send', '5']],
             'hold': 3000})
+        if rng.random() < 0.6:
+            # and once the dust has settled somebody reads the session by
+            # polling, or knocks with a third socket
+            late = ups[0]['t'] + rng.choice([0.1, 0.25, 0.5, 1.0])
+            if rng.random() < 0.7:
+                s['raw'].append({
+                    't': late, 'method': 'GET', 'sidk': 'own',
+                    'query': 'transport=polling&EIO=4&c={c}&sid={sid}',
+                    'headers': []})
+            else:
+                s['raw'].append({
+                    't': late, 'method': 'GET', 'ws': True, 'sidk': 'own',
+                    'query': 'transport=websocket&EIO=4&c={c}&sid={sid}',
+                    'headers': [], 'script': [['send', '2probe'],
+                                              ['wait_frame'], ['send', '5']],
+                    'hold': 64})
+            for _ in range(rng.randint(1, 3)):
+                plan['app'].append({
+                    't': late + rng.choice([-2, 0, 1, 8, 64]) * TICK,
+                    'op': 'send', 'c': plan['sessions'].index(s),
+                    'data': {'k': 's', 'v': 'late-%d' % len(plan['app'])}})
+            plan['app'].sort(key=lambda o: o['t'])
         s['raw'].sort(key=lambda r: r['t'])
     return plan
 
